@@ -74,12 +74,13 @@ type elecRes struct {
 }
 
 type elecWorld struct {
-	w      *World
-	m      *electricpb.Model
-	srv    *electricpb.ModelServer
-	clk    *modelClock
-	nextT  int
-	active bool // the active mode was changed at least once (successfully)
+	w       *World
+	m       *electricpb.Model
+	srv     *electricpb.ModelServer
+	clk     *modelClock
+	nextT   int
+	active  bool // the active mode was changed at least once (successfully)
+	usedSet bool // SetActiveMode (documented not to stamp a start time) was used in this run
 }
 
 func (e *elecWorld) apply(o elecOp) elecRes {
@@ -122,6 +123,7 @@ func (e *elecWorld) apply(o elecOp) elecRes {
 			err = e.m.DeleteMode(o.ID, dopts...)
 		}
 	case "set":
+		e.usedSet = true
 		err = e.m.SetActiveMode(&traits.ElectricMode{Id: o.ID, Title: "set"})
 	case "change":
 		if o.ViaServer {
@@ -402,6 +404,15 @@ func elecRun(w *World) {
 			for _, m := range e.m.Modes() {
 				if v := view[m.Id]; v != nil && (v.Normal != m.Normal || v.Title != m.Title) {
 					w.Violate("stream-diverged", fmt.Sprintf("PullModes folds %q to %v, Modes() has %v", m.Id, v, m), map[string]any{"stream": "modes"})
+				}
+			}
+			// (only an exact stream: a lossy one may skip the stamped event and deliver a later, legitimately unstamped,
+			// re-selection of the same mode; for the same reason somebody polling ActiveMode() proves nothing)
+			for i := 1; i < len(activeEvents) && !e.usedSet && bp; i++ {
+				p, c := activeEvents[i-1].ActiveMode, activeEvents[i].ActiveMode
+				if c.GetId() != p.GetId() && c.GetId() != "" && c.GetStartTime() == nil {
+					w.Violate("start-time", fmt.Sprintf("PullActiveMode reported the switch from %q to %q without a start time", p.GetId(), c.GetId()), map[string]any{"observer": "stream"})
+					break
 				}
 			}
 			if len(activeEvents) > 0 {
